@@ -348,6 +348,32 @@ func coldEpisode(ep *Episode, plan *simsched.Plan, fix, sites string, race bool,
 	if err != nil || code != 0 {
 		return nil, false, "", fmt.Errorf("cold reference process failed: code=%d err=%v", code, err)
 	}
+	// "the result it returns when run alone", literally: every call once more,
+	// each in a process of its own that does nothing else (calls that draw
+	// entropy are left to the sequential reference: their stream position
+	// depends on the calls before them)
+	var refOut coldOut
+	if json.Unmarshal([]byte(ref), &refOut) == nil {
+		alone := make([][]string, len(ep.Tasks))
+		for t, calls := range ep.Tasks {
+			alone[t] = make([]string, len(calls))
+			for i, c := range calls {
+				if c.K == "dnewrand" {
+					continue
+				}
+				one, _ := json.Marshal(&Episode{FixSeed: ep.FixSeed, EntSeed: ep.EntSeed, Tasks: [][]Call{{c}}})
+				o, code, err := runProc(timeout, nil, os.Getenv("CONSIM_BIN_PLAIN"), "cold-ref", string(one), fix, sites)
+				var oo coldOut
+				if err != nil || code != 0 || json.Unmarshal([]byte(o), &oo) != nil || len(oo.Results) != 1 || len(oo.Results[0]) != 1 {
+					return nil, false, "", fmt.Errorf("single-call reference process failed: code=%d err=%v", code, err)
+				}
+				alone[t][i] = oo.Results[0][0]
+			}
+		}
+		refOut.Alone = alone
+		b, _ := json.Marshal(&refOut)
+		ref = string(b)
+	}
 	bin := os.Getenv("CONSIM_BIN_PLAIN")
 	if race {
 		bin = os.Getenv("CONSIM_BIN_RACE")
